@@ -27,6 +27,7 @@ import (
 	"sort"
 	"strconv"
 	"strings"
+	"sync"
 	"time"
 
 	"connectrpc.com/conformance/internal"
@@ -103,6 +104,7 @@ func (w *wireReader) Close() error {
 
 type wireWrapper struct {
 	traceAvailable chan struct{}
+	setOnce        sync.Once
 	trace          tracer.Trace
 	// buf represents the read response body
 	buf *bytes.Buffer
@@ -138,15 +140,18 @@ func withWireCapture(ctx context.Context) context.Context {
 	})
 }
 
-// setWireTrace sets the given trace in the given context. Should never be called
-// more than once for the same context.
+// setWireTrace sets the given trace in the given context. Only the first trace
+// for a context is kept: the HTTP client may complete more than one round trip
+// with the same context (e.g. when it follows a redirect).
 func setWireTrace(ctx context.Context, trace tracer.Trace) {
 	wrapper, ok := ctx.Value(wireCtxKey{}).(*wireWrapper)
 	if !ok {
 		return
 	}
-	wrapper.trace = trace
-	close(wrapper.traceAvailable)
+	wrapper.setOnce.Do(func() {
+		wrapper.trace = trace
+		close(wrapper.traceAvailable)
+	})
 }
 
 // examineWireDetails examines certain wire details of the call and returns the
